@@ -127,6 +127,62 @@ def route_case(rnd, link, k, extra):
     return lit, {"systems": systems, "arrivals": arrivals, "answers": answers, "app": list(link.app), "extra_results": leftovers, "results": nres}
 
 
+def instant_case(link, k):
+    """k requesters against a peer that answers every request while it is still being sent (the reply is fed from inside
+    send_data): every requester must get its own reply, nothing may reach the application"""
+    proto = link.proto
+    conn = link.rig.conn
+    plain = conn.send_data
+    arrivals = []
+
+    def answering(data):
+        ok = plain(data)
+        for b in protorig_split([bytes(data)]):
+            if b.header.s_type.value == 0 and (b.header.stream, b.header.function) == (1, 1):
+                marker = 4000 + len(arrivals)
+                arrivals.append((b.header.system, marker))
+                conn.on_data({"source": conn, "data": link.reply_frame(b.header.system, marker)})
+        return ok
+
+    del link.app[:]
+    conn.send_data = answering
+    holders = []
+    try:
+        def work(h):
+            h["result"] = proto.send_and_waitfor_response(link.sf.function(1, 1)())
+
+        for _ in range(k):
+            h = {}
+            h["thread"] = threading.Thread(target=work, args=(h,), daemon=True)
+            holders.append(h)
+            h["thread"].start()
+        deadline = time.monotonic() + 10
+        while time.monotonic() < deadline and any(h["thread"].is_alive() for h in holders):
+            # a requester whose reply went astray waits for T3: release it as the timeout would
+            if len(arrivals) == k and link.rig.settle(0.3):
+                for s_ in list(proto._response_queues):
+                    if parked(proto, s_):
+                        proto._response_queues[s_].put_nowait(None)
+            time.sleep(0.002)
+        for h in holders:
+            h["thread"].join(5)
+            if h["thread"].is_alive():
+                raise common.Wedged("a requester did not return")
+    finally:
+        conn.send_data = plain
+    link.rig.settle()
+    got = {}
+    for h in holders:
+        r = h.get("result")
+        if r is not None:
+            got.setdefault(r.header.system, []).append(int(link.sf.decode(r).get()[0]))
+    systems = [s_ for s_, _ in arrivals]
+    answers = [(got.get(s_) or [None])[0] for s_ in systems]
+    lit = ("(KRoute " + L.zlist(systems) + " [" + ";".join(f"({L.z(s_)}, {L.z(m)})" for s_, m in arrivals) + "] ["
+           + ";".join("None" if a is None else f"(Some {L.z(a)})" for a in answers) + "] [" + ";".join(f"({L.z(s_)}, {L.z(m)})" for s_, m in link.app) + "])")
+    return lit, {"systems": systems, "arrivals": arrivals, "answers": answers, "app": list(link.app), "extra_results": 0, "results": sum(1 for a in answers if a is not None)}
+
+
 def protorig_split(chunks):
     data = b"".join(chunks)
     out = []
@@ -320,7 +376,10 @@ def run(tier, replay=None):
                 if i % 10 == 9:          # across reconnects
                     link.down()
                     link.up()
-                lit, raw = route_case(rnd, link, rnd.choice([1, 2, 3, 5, 8, 12]), rnd.choice([0, 1, 3, 6]))
+                if i % 5 == 4:
+                    lit, raw = instant_case(link, rnd.choice([1, 2, 4]))
+                else:
+                    lit, raw = route_case(rnd, link, rnd.choice([1, 2, 3, 5, 8, 12]), rnd.choice([0, 1, 3, 6]))
                 lits.append(lit)
                 raws.append(raw)
                 if raw["extra_results"] or raw["results"] != len([a for a in raw["answers"] if a is not None]):
